@@ -33,10 +33,15 @@ WriteTo(s) ==
   /\ Step /\ Typ[s] = "udp" /\ st[s] \in {"init", "bound", "conn"}
   /\ IF st[s] = "init" THEN st' = [st EXCEPT ![s] = "bound"] /\ held' = [held EXCEPT ![s] = <<"udp", AnyA, Eph(s)>>]
      ELSE UNCHANGED <<st, held>>
+\* TCP connect (active open): the connection's 4-tuple is registered with the demultiplexer and the port reservation of
+\* an earlier bind is given up at once (an unbound socket never reserves: its ephemeral port is picked by registration)
+TcpConnect(s) ==
+  /\ Step /\ Typ[s] = "tcp" /\ st[s] \in {"init", "bound"}
+  /\ st' = [st EXCEPT ![s] = "conn"] /\ held' = [held EXCEPT ![s] = None]
 Listen(s) == Step /\ Typ[s] = "tcp" /\ st[s] = "bound" /\ st' = [st EXCEPT ![s] = "listen"] /\ UNCHANGED held
 Close(s) == Step /\ st[s] # "closed" /\ st' = [st EXCEPT ![s] = "closed"] /\ held' = [held EXCEPT ![s] = None]
 Next == \E s \in Socks : \/ \E a \in LAddrs \cup {AnyA}, e \in BOOLEAN, ok \in BOOLEAN : Bind(s, a, e, ok)
-                         \/ Connect(s) \/ WriteTo(s) \/ Listen(s) \/ Close(s)
+                         \/ Connect(s) \/ TcpConnect(s) \/ WriteTo(s) \/ Listen(s) \/ Close(s)
 Spec == Init /\ [][Next]_vars
 Exclusive == \A s, t \in Socks : (s # t /\ held[s] # None /\ held[t] # None /\ held[s][1] = held[t][1] /\ held[s][3] = held[t][3])
                 => (held[s][2] # AnyA /\ held[t][2] # AnyA /\ held[s][2] # held[t][2])
